@@ -134,7 +134,7 @@ fn run_kf(ctx: &Ctx, report: &mut Report) {
     search(ctx, 9, ctx.cases(40, 400), 60..300, report, |choices, _rep, shrinking| {
         let mut ch = Chooser::new(choices);
         let mut next_id = 0;
-        let source = gen_source(&mut ch, &ScriptOpts { max_replicas: 2, max_iterations: 1, max_len: 40, non_negative: false }, &mut next_id);
+        let source = gen_source(&mut ch, &ScriptOpts { max_replicas: 2, max_iterations: 1, max_len: 40, non_negative: false, styles: [6, 1, 1, 1], min_len: 0, wm_weight: 3 }, &mut next_id);
         let n = ch.range(2, 5) as u8;
         let job = TsJob { source, stages: vec![TsStage::ReplicateOne, TsStage::CountWindow { k: 1, n, s: n, exact: false }] };
         let cfg = gen_cfg(&mut ch);
@@ -276,7 +276,7 @@ fn e2e_case(ctx: &Ctx, choices: &[u16], counter: &std::cell::Cell<u64>, rep: &mu
     {
         let mut ch = Chooser::new(choices);
         let mut next_id = 0;
-        let src = gen_source(&mut ch, &ScriptOpts { max_replicas: 5, max_iterations: 1, max_len: 40, non_negative: false }, &mut next_id);
+        let src = gen_source(&mut ch, &ScriptOpts { max_replicas: 5, max_iterations: 1, max_len: 40, non_negative: false, styles: [6, 1, 1, 1], min_len: 0, wm_weight: 3 }, &mut next_id);
         let size = ch.range(1, 10);
         let slide = if ch.flag(1, 2) { size } else { ch.range(1, size) };
         let k = [1i64, 2, 3][ch.below(3)];
@@ -368,7 +368,7 @@ fn interval_case(ctx: &Ctx, choices: &[u16], counter: &std::cell::Cell<u64>, rep
     {
         let mut ch = Chooser::new(choices);
         let mut next_id = 0;
-        let o = ScriptOpts { max_replicas: 4, max_iterations: 1, max_len: 30, non_negative: true };
+        let o = ScriptOpts { max_replicas: 4, max_iterations: 1, max_len: 30, non_negative: true, styles: [6, 1, 1, 1], min_len: 0, wm_weight: 3 };
         let left = gen_source(&mut ch, &o, &mut next_id);
         let mut right = gen_source(&mut ch, &o, &mut next_id);
         right.iterations = left.iterations;
